@@ -442,12 +442,24 @@ theorem readsBack32 (s : Stage) (hm : stageMB32Valid s = true) :
   constructor
   · intro mb h
     have := hm.1
-    simp only [h, decide_eq_true_eq] at this
+    simp only [h, Martian.FormatRes.wfMB, decide_eq_true_eq] at this
     exact Martian.FormatRes.readGB32Tok_fmtGB mb this
   · intro mb h
     have := hm.2
-    simp only [h, decide_eq_true_eq] at this
+    simp only [h, Martian.FormatRes.wfMB, decide_eq_true_eq] at this
     exact Martian.FormatRes.readGB32Tok_fmtGB mb this
+
+/-- the resource conjunct of `wfStage` IS `stageMB32Valid` (`wfMB` is the 256 GB bound) -/
+theorem stageMB32Valid_of_wf (s : Stage) (hw : wfStage s = true) : stageMB32Valid s = true := by
+  obtain ⟨_, _, _, _, _, _, _, _, _, _, _, h12, _⟩ := wfStage_parts hw
+  unfold stageMB32Valid
+  cases hr : s.res with
+  | none => rfl
+  | some r =>
+    rw [hr] at h12
+    simp only [Martian.FormatRes.wfRes, Bool.and_eq_true] at h12
+    simp only [Bool.and_eq_true]
+    exact ⟨h12.1.1.1, h12.1.1.2⟩
 
 /-- **Round trip with the REAL reading of `mem_gb` / `vmem_gb`**, below 256 GB -/
 theorem parseStage32_fmtStage (s : Stage) (hw : wfStage s = true) (hm : stageMB32Valid s = true) :
@@ -479,14 +491,14 @@ theorem stageMBValid_of_32 (s : Stage) (hm : stageMB32Valid s = true) : stageMBV
       | none => rfl
       | some mb =>
         have := hm.1
-        simp only [hmem, decide_eq_true_eq] at this
-        simp only [Martian.FormatRes.wfMB, decide_eq_true_eq]; omega
+        simp only [hmem, Martian.FormatRes.wfMB, decide_eq_true_eq] at this
+        simp only [mbInt64, decide_eq_true_eq]; omega
     · cases hv : r.vmem with
       | none => rfl
       | some mb =>
         have := hm.2
-        simp only [hv, decide_eq_true_eq] at this
-        simp only [Martian.FormatRes.wfMB, decide_eq_true_eq]; omega
+        simp only [hv, Martian.FormatRes.wfMB, decide_eq_true_eq] at this
+        simp only [mbInt64, decide_eq_true_eq]; omega
 
 theorem stageMB32Valid_canon (h : Bytes → Bytes) (s : Stage) :
     stageMB32Valid (canonStage h s) = stageMB32Valid s := by
@@ -498,7 +510,7 @@ theorem parseStage32H_wf (h : Bytes → Bytes) (hh : HOK h) (src : Bytes) (s : S
     (hp : parseStage32H h src = some s) (hs : stageStrsValid s = true) (hm : stageMB32Valid s = true) :
     wfStage s = true := by
   obtain ⟨s0, h0, rfl⟩ := parseStage32H_inv hp
-  exact wfStage_canon h hh s0 (parseStage32_range src s0 h0) hs (stageMBValid_of_32 _ hm)
+  exact wfStage_canon h hh s0 (parseStage32_range src s0 h0) hs hm
 
 /-- **Formatting preserves every stage text the real parser accepts**, up to F6b and F29 -/
 theorem parseStage32H_fmtStage (h : Bytes → Bytes) (hh : HOK h) (src : Bytes) (s : Stage)
@@ -507,7 +519,7 @@ theorem parseStage32H_fmtStage (h : Bytes → Bytes) (hh : HOK h) (src : Bytes) 
     ∀ s', parseStage32H h (fmtStage s) = some s' → fmtStage s' = fmtStage s := by
   obtain ⟨s0, h0, rfl⟩ := parseStage32H_inv hp
   have hr := parseStage32_range src s0 h0
-  have hw := wfStage_canon h hh s0 hr hs (stageMBValid_of_32 _ hm)
+  have hw := wfStage_canon h hh s0 hr hs hm
   have h1 : parseStage32H h (fmtStage (canonStage h s0)) = some (canonStage h s0) := by
     simp only [parseStage32H, parseStage32_fmtStage _ hw hm, Option.map_some, canonStage_fixed h hh s0 hr]
   refine ⟨h1, ?_⟩
